@@ -311,7 +311,7 @@ type Req struct {
 	ETagOf        *Req // take If-None-Match from the ETag this earlier request of the same task was answered with
 	Sub           *Req // record of the sub-request a handler may dispatch through the same instance (nil: none)
 	Flusher       bool
-	Hijacker      int   // underlying writer facet: 0 no http.Hijacker, 1 a Hijacker whose Hijack fails
+	Hijacker      int   // underlying writer facet: 0 no http.Hijacker, 1 a Hijacker whose Hijack fails, 2 one whose Hijack succeeds
 	ReaderFrom    bool  // underlying writer facet: io.ReaderFrom (as net/http's response has)
 	Deadline      int64 // virtual ticks after start; 0 none
 	CtxErr        int   // what the request context reports once cancelled: 0 Canceled, 1 DeadlineExceeded, 2 a custom error
